@@ -147,6 +147,22 @@ class ClassGen:
             info['methods']['poke'] = name
             info['peek_field'] = f
             self.tags.add('self.link.field')
+        if r.random() < 0.4:
+            # reads and writes of a field of ANOTHER object from inside a method: plain, compound and through a
+            # local alias; the enclosing class often declares the same name at a different slot
+            f = r.choice(FIELDS)
+            val = Num(r.randint(1, 5)) if f == 'n' else Str('+' + self.tag())
+            form = r.choice(['compound', 'compound', 'plain', 'alias_compound'])
+            if form == 'compound':
+                upd = [ExprS(OpAssign(Prop(Var('o'), f), '+', val))]
+            elif form == 'plain':
+                upd = [ExprS(Assign(Prop(Var('o'), f), val))]
+            else:
+                upd = [Let('t', Var('o')), ExprS(OpAssign(Prop(Var('t'), f), '+', val))]
+            methods.append(Fn('bumpOther', ['o'], upd + [Return(Prop(Var('o'), f))]))
+            info['methods']['bumpOther'] = name
+            info['bump_field'] = f
+            self.tags.add('foreign_field_update:' + form)
         if parent is not None and r.random() < 0.3:
             ms = [m for m in METHODS if m in parent['methods'] and m not in parent['callable_fields']]
             if ms:
@@ -231,6 +247,15 @@ def case(rng):
             stmts.append(guarded_print([Call(Prop(Var(oname), 'peek'), [])], 'peek %s->%s' % (oname, other)))
             stmts.append(guarded_print([Call(Prop(Var(oname), 'poke'), [Str(g.tag())])], 'poke %s->%s' % (oname, other)))
             stmts.append(guarded_print([Call(Prop(Var(oname), 'peek'), [])], 'peek2 %s->%s' % (oname, other)))
+    for oname, info in objs:
+        if 'bumpOther' in info['methods']:
+            for _ in range(r.randint(1, 3)):
+                other, oinfo = r.choice(objs)
+                stmts.append(guarded_print([Call(Prop(Var(oname), 'bumpOther'), [Var(other)])],
+                                           'bumpOther %s->%s' % (oname, other)))
+                # the whole layout of the target afterwards
+                for f2 in FIELDS:
+                    stmts.append(guarded_print([Prop(Var(other), f2)], 'after bump %s.%s' % (other, f2)))
     for oname, info in objs:
         if info.get('selfcb'):
             stmts.append(guarded_print([Call(Prop(Var(oname), 'selfcb'), [])], 'selfcb ' + oname))
